@@ -45,7 +45,7 @@ def go_env():
 
 
 class Ctx:
-    def __init__(self, prop, tier="quick", seed=None, repo=None):
+    def __init__(self, prop, tier="quick", seed=None, repo=None, purge_replays=True):
         self.prop = prop
         self.tier = tier
         self.seed = int(seed if seed is not None else os.environ.get("VERIF_SEED", "1") or 1)
@@ -55,7 +55,7 @@ class Ctx:
         self.scratch = tempfile.mkdtemp(prefix="verif-%s-" % prop, dir=base)
         self.keep = bool(os.environ.get("VERIF_KEEP"))
         atexit.register(self.cleanup)
-        if not os.environ.get("VERIF_NO_EVIDENCE"):
+        if purge_replays and not os.environ.get("VERIF_NO_EVIDENCE"):
             import glob
             for old in glob.glob(os.path.join(REPLAY_DIR, prop + "-*.json")):
                 os.unlink(old)       # replays of earlier runs of this property are stale
